@@ -30,6 +30,7 @@ type Seq struct {
 	X     []int       `json:"x,omitempty"`     // cat kind: observed symbols
 	Sets  [][][]int   `json:"sets,omitempty"`  // state-set sequences for Posterior
 	X2    [][]int     `json:"x2,omitempty"`    // mat / shape kinds: observed symbol vectors [k][d]
+	Cls   []ClsJ      `json:"cls,omitempty"`   // round 6: vectorClassifier.HmmPosterior / HmmClassifier calls (cat kinds)
 }
 type Case struct {
 	Kind  string      `json:"kind"` // "table" | "cat" | "mixtable" | "mixcat"
@@ -46,6 +47,7 @@ type Case struct {
 	W   []float64 `json:"w,omitempty"`
 	P   []float64 `json:"p,omitempty"` // mixtable: component densities
 	X   int       `json:"x,omitempty"` // mixcat: observed symbol
+	XV  []int     `json:"xv,omitempty"` // mixvec (round 6): observed symbol vector; component j = ScalarId(cat(theta[(j+d)%k]) for coordinate d)
 	Sel [][]int   `json:"sel,omitempty"`
 	// bw: poison value of the reused work matrices (0: NaN, 1: 1.5)
 	Poison int `json:"poison,omitempty"`
@@ -326,6 +328,7 @@ type SeqObs struct {
 	Post   []float64
 	PostE  []bool
 	Vit    []int
+	Cls    []ClsObs
 }
 type HObs struct {
 	Pi     []float64
@@ -440,6 +443,12 @@ func observeObj(o *hmmObj, c Case) (obs HObs, err error) {
 			return obs, e
 		}
 		so.Vit = p
+		// round 6: the classifier front-ends (only the wrappers that hold a vectorDistribution.Hmm)
+		if o.v != nil {
+			for _, cj := range s.Cls {
+				so.Cls = append(so.Cls, observeCls(o, c, s, cj))
+			}
+		}
 		obs.Seqs = append(obs.Seqs, so)
 	}
 	return obs, nil
@@ -483,9 +492,9 @@ func coqH(c Case, obs HObs) string {
 		}
 		bg := append(bitsOf(so.GA), bitsOf(so.GB)...)
 		bo := append(bitsOf(so.OA), bitsOf(so.OB)...)
-		seqs = append(seqs, fmt.Sprintf("mkSeq %d %s %s (%s) %s %s %s %s %s%%Z %s%%Z %s %s %s",
+		seqs = append(seqs, fmt.Sprintf("mkSeq %d %s %s (%s) %s %s %s %s %s%%Z %s%%Z %s %s %s %s",
 			s.N, QLL(emTable(c, s)), FLL(so.EmF), G(so.LogPdf), GLL(so.GA), GLL(so.GB), GLL(so.OA), GLL(so.OB),
-			ZList(bg), ZList(bo), marg, List(post), NL(so.Vit)))
+			ZList(bg), ZList(bo), marg, List(post), NL(so.Vit), clsCoq(so.Cls)))
 	}
 	return fmt.Sprintf("CH (mkH %d %s %s %s %s %s %s %s %s %s %s %s %s)",
 		c.M, QL(c.Pi), QLL(c.Tr), NL(stateMap(c)), zl(c.Start), zl(c.Final),
@@ -495,7 +504,7 @@ func coqH(c Case, obs HObs) string {
 
 // a case on which the implementation crashed or refused: can never match
 func coqBroken(c Case) string {
-	return fmt.Sprintf("CH (mkH %d [] [] [] [] [] [] [] [] [] [] [] [mkSeq 1 [] [] GErr [] [] [] [] [] [] None [] []])", c.M)
+	return fmt.Sprintf("CH (mkH %d [] [] [] [] [] [] [] [] [] [] [] [mkSeq 1 [] [] GErr [] [] [] [] [] [] None [] [] []])", c.M)
 }
 
 // ---------------------------------------------------------------- mixtures
@@ -519,8 +528,46 @@ func observeMix(c Case) (obs MObs, err error) {
 	var gm *generic.Mixture
 	var rec generic.MixtureDataRecord
 	var sm *scalarDistribution.Mixture
+	var vm *vectorDistribution.Mixture
+	var xv ad.ConstVector
 	x := ad.NewFloat64(float64(c.X))
-	if c.Kind == "mixcat" {
+	if c.Kind == "mixvec" {
+		// round 6: vectorDistribution.Mixture (the wrapper + its MixtureDataRecord), on the clone for odd len(Sel)
+		k := len(c.Theta)
+		ed := make([]stat.VectorPdf, k)
+		for j := range ed {
+			sd := make([]stat.ScalarPdf, len(c.XV))
+			for d := range sd {
+				cd, e := scalarDistribution.NewCategoricalDistribution(mkVec(c.Real, c.Theta[(j+d)%k]))
+				if e != nil {
+					return obs, e
+				}
+				sd[d] = cd
+			}
+			id, e := vectorDistribution.NewScalarId(sd...)
+			if e != nil {
+				return obs, e
+			}
+			ed[j] = id
+		}
+		mx, e := vectorDistribution.NewMixture(w, ed)
+		if e != nil {
+			return obs, e
+		}
+		if len(c.Sel)%2 == 1 {
+			mx = mx.Clone()
+		}
+		if mx.Dim() != len(c.XV) {
+			return obs, fmt.Errorf("vectorDistribution.Mixture.Dim() = %d for components of dimension %d", mx.Dim(), len(c.XV))
+		}
+		vm = mx
+		gm = &mx.Mixture
+		xf := make([]float64, len(c.XV))
+		for d, v := range c.XV {
+			xf[d] = float64(v)
+		}
+		xv = ad.NewDenseFloat64Vector(xf)
+	} else if c.Kind == "mixcat" {
 		ed := make([]stat.ScalarPdf, len(c.Theta))
 		for i, th := range c.Theta {
 			d, e := scalarDistribution.NewCategoricalDistribution(mkVec(c.Real, th))
@@ -553,7 +600,9 @@ func observeMix(c Case) (obs MObs, err error) {
 	}
 	r := ad.NewScalar(gm.ScalarType(), 0.0)
 	var e error
-	if sm != nil {
+	if vm != nil {
+		e = vm.LogPdf(r, xv)
+	} else if sm != nil {
 		e = sm.LogPdf(r, x)
 	} else {
 		e = gm.LogPdf(r, rec)
@@ -566,7 +615,10 @@ func observeMix(c Case) (obs MObs, err error) {
 		r1 := ad.NewScalar(gm.ScalarType(), 0.0)
 		r2 := ad.NewScalar(gm.ScalarType(), 0.0)
 		var e1, e2 error
-		if sm != nil {
+		if vm != nil {
+			e1 = vm.Posterior(r1, xv, sel)
+			e2 = vm.Likelihood(r2, xv, sel)
+		} else if sm != nil {
 			e1 = sm.Posterior(r1, x, sel)
 			e2 = sm.Likelihood(r2, x, sel)
 		} else {
@@ -582,6 +634,17 @@ func observeMix(c Case) (obs MObs, err error) {
 }
 
 func mixP(c Case) []float64 {
+	if c.Kind == "mixvec" {
+		k := len(c.Theta)
+		p := make([]float64, k)
+		for j := range p {
+			p[j] = 1
+			for d, v := range c.XV {
+				p[j] *= c.Theta[(j+d)%k][v]
+			}
+		}
+		return p
+	}
 	if c.Kind == "mixcat" {
 		p := make([]float64, len(c.Theta))
 		for i, th := range c.Theta {
@@ -779,6 +842,9 @@ func genHmm(r *Rng, w *CaseWriter) Case {
 			d[k] = append(d[k], d[k][0])
 			s.Sets = append(s.Sets, d)
 		}
+		if c.Kind == "cat" {
+			s.Cls = genCls(r, w, m, s.N)
+		}
 		c.Seqs = append(c.Seqs, s)
 	}
 	return c
@@ -787,8 +853,11 @@ func genHmm(r *Rng, w *CaseWriter) Case {
 func genMix(r *Rng, w *CaseWriter) Case {
 	var c Case
 	c.Kind = "mixtable"
-	if r.Intn(3) == 0 {
+	switch r.Intn(4) {
+	case 0:
 		c.Kind = "mixcat"
+	case 1:
+		c.Kind = "mixvec"
 	}
 	c.Real = r.Intn(5) == 0
 	k := r.Range(1, 4)
@@ -803,7 +872,7 @@ func genMix(r *Rng, w *CaseWriter) Case {
 		}
 		w.Count("mix:zero-weights")
 	}
-	if c.Kind == "mixcat" {
+	if c.Kind == "mixcat" || c.Kind == "mixvec" {
 		nsym := r.Range(2, 3)
 		c.Theta = make([][]float64, k)
 		for ci := range c.Theta {
@@ -813,6 +882,13 @@ func genMix(r *Rng, w *CaseWriter) Case {
 			}
 		}
 		c.X = r.Intn(nsym)
+		if c.Kind == "mixvec" {
+			c.X = 0
+			c.XV = make([]int, r.Range(1, 3))
+			for d := range c.XV {
+				c.XV[d] = r.Intn(nsym)
+			}
+		}
 	} else {
 		c.P = make([]float64, k)
 		for i := range c.P {
@@ -860,6 +936,10 @@ func emit(c Case, w *CaseWriter, key string) {
 	}
 	if c.Kind == "hist" {
 		emitHist(c, w, key)
+		return
+	}
+	if c.Kind == "ctor0" {
+		emitCtor0(c, w, key)
 		return
 	}
 	if isMix(c) {
@@ -934,7 +1014,7 @@ func main() {
 	}
 	w := NewCaseWriter(o.Out, "cases", hdr, "xmism", 5)
 	w.Type = "xcase"
-	w.Rule = "random HMMs (1-4 states, sequence length 1-6, 1-3 sequences per model, probabilities k/16 with zeros, unnormalised rows, all-zero rows, nil/permuted/non-injective state maps, start/final restrictions incl. -1 and duplicates, emission tables or categorical emissions through vectorDistribution.Hmm, Float64 or Real64 parameters) and mixtures (1-4 components, table or categorical); an HMM case is non-trivial iff it has >= 2 states and a sequence of length >= 3 with positive likelihood, a mixture iff >= 2 non-zero weights; a Baum-Welch case (2-4 records of different lengths on one thread, both record orders, poisoned work memory) is non-trivial iff it has >= 2 states, a longer record directly before a shorter one and the step succeeds; a setter history (1-5 calls of SetStartStates / SetFinalStates / SetParameters / Clone after the constructor, then sequences of every length 1..n, n in 2..4) is non-trivial iff it has >= 2 states, a SetParameters after an accepted SetFinalStates and a sequence of length >= 2 with positive likelihood; distinct = distinct input"
+	w.Rule = "random HMMs (1-4 states, sequence length 1-6, 1-3 sequences per model, probabilities k/16 with zeros, unnormalised rows, all-zero rows, nil/permuted/non-injective state maps, start/final restrictions incl. -1 and duplicates, emission tables or categorical emissions through vectorDistribution.Hmm, Float64 or Real64 parameters) and mixtures (1-4 components, table or categorical); an HMM case is non-trivial iff it has >= 2 states and a sequence of length >= 3 with positive likelihood, a mixture iff >= 2 non-zero weights; a Baum-Welch case (2-4 records of different lengths on one thread, both record orders, poisoned work memory) is non-trivial iff it has >= 2 states, a longer record directly before a shorter one and the step succeeds; a setter history (1-5 calls of SetStartStates / SetFinalStates / SetParameters / Clone after the constructor, then sequences of every length 1..n, n in 2..4) is non-trivial iff it has >= 2 states, a SetParameters after an accepted SetFinalStates and a sequence of length >= 2 with positive likelihood; round 6: histories also contain ImportConfig(json(ExportConfig())) round trips (incl. the panicking one after SetStartStates({-1})), every sequence of a model built on vectorDistribution.Hmm carries 1-3 vectorClassifier.HmmPosterior / HmmClassifier Eval calls (state lists: subset in any order / all / empty / repeated / out of range; result vector of the right or a wrong length; on the classifier and its clone), mixtures also through vectorDistribution.Mixture with ScalarId components (and its Clone); distinct = distinct input"
 	corpus, _ := os.ReadFile(o.Extra)
 	if len(corpus) > 0 {
 		for _, line := range strings.Split(string(corpus), "\n") {
